@@ -245,6 +245,17 @@ let judge0 op args got =
       else expect ("ok " ^ hx (cv_powmod (a 0) (Zar.erem (a 1) (a 0)) (a 2))) got
   | "modmul" -> if Zar.sign (a 0) = 0 then expect ~nt:false "panic DivideBy0" got
       else expect ("ok " ^ hx (Zar.erem (Zar.mul (a 1) (a 2)) (a 0))) got
+  | "modsqr" -> if Zar.sign (a 0) = 0 then expect ~nt:false "panic DivideBy0" got
+      else expect ("ok " ^ hx (Zar.erem (Zar.mul (a 1) (a 1)) (a 0))) got
+  | "cdivrem" -> if Zar.sign (a 1) = 0 then expect ~nt:false "panic DivideBy0" got
+      else
+        let (q, r) = cv_divrem (a 0) (a 1) in
+        let (uq, ur) = cv_divrem (Zar.abs (a 0)) (a 1) in
+        (* which arm of the prepared division this is in a build with 64-bit words / 32-bit words: divisor length class
+           and whether the top word of the divisor has leading zeros (the normalising shift is undone afterwards) *)
+        let cls w = let l = (bits (a 1) + w - 1) / w in
+          (if l <= 1 then "word" else if l = 2 then "dword" else "large") ^ (if bits (a 1) mod w = 0 then "-shift0" else "-shifted") in
+        expect ~extra:(Printf.sprintf "cls=const-w64-%s-w32-%s" (cls 64) (cls 32)) (Printf.sprintf "ok %s %s %s %s" (hx q) (hx r) (hx uq) (hx ur)) got
   | "tostr" ->
       let r = n 0 and v = a 1 in
       let ds = List.map (digit_char false) (digits_spec r (Zar.abs v)) in
@@ -302,13 +313,87 @@ let judge0 op args got =
           | "fmul" -> let (nn, d) = fmul x1 (x2 ()) in XRat (nn, d)
           | "fdiv" -> let (nn, d) = fdiv x1 (x2 ()) in XRat (nn, d)
           | _ -> let (nn, d) = x1 in XSqrt (nn, d) in
+        (* round 4: the digit-exact as-is models of C03 (Float/LongModel.v, every Repr::new of the code inside; proved = one
+           rounding of the exact result + normal form for operands that fit the precision, for ANY digit estimate): every
+           build is compared with the model token for token, and a result that is not in normal form is a failure *)
+        let (n1s, n1e) = fnormalize b (a 3) (a 4) in
+        let (n2s, n2e) = if op = "fsqrt" then (Zar.zero, Zar.zero) else fnormalize b (a 5) (a 6) in
+        let raw ap = (match ap with
+          | AExact (s, e) -> hx s ^ " " ^ hx e ^ " Exact"
+          | AInexact (s, e, r) -> hx s ^ " " ^ hx e ^ " " ^ (match r with NoOp -> "NoOp" | AddOne -> "AddOne" | SubOne -> "SubOne")) in
+        let model = (match op with
+          | "fadd" -> Some (raw (ctx_add_n_x b p m n1s n1e n2s n2e))
+          | "fsub" -> Some (raw (ctx_sub_n_x b p m n1s n1e n2s n2e))
+          | "fmul" -> Some (raw (ctx_mul_n b p m n1s n1e n2s n2e))
+          | "fdiv" -> (match ctx_div_n_x b p m n1s n1e n2s n2e with Ok ap -> Some (raw ap) | _ -> None)
+          | _ -> (match ctx_sqrt_n b p m n1s n1e with Ok ap -> Some (raw ap) | _ -> None)) in
         (match got with
          | [ "ok"; s; e; f; prec ] ->
+             let fid = (match model with Some t -> same (t = s ^ " " ^ e ^ " " ^ f) | None -> same false) in
              if s = "inf" || s = "-inf" then fail "finite-result"
              else if not (Zar.equal (usz prec) p) then fail ("precision-" ^ hx p)
-             else if check_contract b p m x (z s) (z e) (flag_of f) then pass ~extra:("cls=float-" ^ f) ()
+             else if not (is_normal b (z s) (z e)) then fail "result-in-normal-form"
+             else if check_contract b p m x (z s) (z e) (flag_of f) then pass ~extra:(fid ^ " cls=float-" ^ f ^ " path=float-model-" ^ op) ()
              else fail "rounding-contract"
          | _ -> fail "ok-sig-exp-flag-prec")
+  | "fx" -> (
+      (* round 4: float operations with exponents anywhere in isize (release vs debug: overflow checks).  As-is: C03's
+         digit-exact models, which only ever ADD exponents (no power of the base of that size is formed); specification: the
+         rounding contract after translating the exponents next to zero (rounding to p digits commutes with scaling by powers
+         of the base; for + and - of operands further apart than every digit involved the small operand only decides the
+         direction, so the distance is cut to p + both lengths + 16).  Class float_exponent_range_unchecked (OPEN): the
+         exponents of a product do not add up within isize - no representable result; Serde/ExpRangeModel.v predicts a panic
+         for builds with overflow checks and the wrapped exponent for builds without *)
+      let sub = arg 0 in
+      let b = n 1 and m = mode_of (arg 2) and p = n 3 in
+      let s1 = a 4 and e1 = a 5 in
+      let (s2, e2) = if sub = "sqrt" then (Zar.zero, Zar.zero) else (a 6, a 7) in
+      let raw ap = (match ap with
+        | AExact (s, e) -> hx s ^ " " ^ hx e ^ " Exact"
+        | AInexact (s, e, r) -> hx s ^ " " ^ hx e ^ " " ^ (match r with NoOp -> "NoOp" | AddOne -> "AddOne" | SubOne -> "SubOne")) in
+      let cls = sub = "mul" && mul_exp_range_class e1 e2 in
+      match got with
+      | "ok" :: xr :: rest when xr = "xr=" ^ b2s cls ->
+          let g = String.concat " " rest in
+          if cls then begin
+            let show = function Ok ap -> raw ap ^ " " ^ hx p | Panic _ -> "panic" | _ -> "?" in
+            if g = show (ctx_mul_build true b p m s1 e1 s2 e2) then { (known "float_exponent_range_unchecked" "a documented panic in every build") with extra = "asis=same cls=exp-range-checked-build" }
+            else if g = show (ctx_mul_build false b p m s1 e1 s2 e2) then { (known "float_exponent_range_unchecked" "a documented panic in every build") with extra = "asis=same cls=exp-range-wrapping-build" }
+            else fail "panic-or-the-wrapped-exponent-of-the-as-is-model"
+          end else begin
+            let lim = zi (Zar.numbits s1 + Zar.numbits s2 + Zar.to_int p + 16) in
+            (* translated operands (t1, t2), and k with: true exponent = translated exponent + k *)
+            let (t1, t2, k, model) = (match sub with
+              | "mul" -> (Zar.zero, Zar.zero, Zar.add e1 e2, Some (raw (ctx_mul_n b p m s1 e1 s2 e2)))
+              | "sqrt" -> let e' = Zar.erem e1 (zi 2) in
+                  (e', Zar.zero, Zar.div (Zar.sub e1 e') (zi 2), (match ctx_sqrt_n b p m s1 e1 with Ok ap -> Some (raw ap) | _ -> None))
+              | _ ->
+                  let d = Zar.sub e1 e2 in
+                  let (t1, t2, k) =
+                    if Zar.gt d lim then (lim, Zar.zero, Zar.sub e1 lim)
+                    else if Zar.lt d (Zar.neg lim) then (Zar.zero, lim, Zar.sub e2 lim)
+                    else let mn = Zar.min e1 e2 in (Zar.sub e1 mn, Zar.sub e2 mn, mn) in
+                  let shift ap = (match ap with AExact (s, e) -> AExact (s, Zar.add e k) | AInexact (s, e, r) -> AInexact (s, Zar.add e k, r)) in
+                  let f = if sub = "add" then ctx_add_n_x else ctx_sub_n_x in
+                  (t1, t2, k, Some (raw (shift (f b p m s1 t1 s2 t2))))) in
+            let x = (match sub with
+              | "mul" -> XRat (Zar.mul s1 s2, Zar.one)
+              | "sqrt" -> let (nn, d) = frac b s1 t1 in XSqrt (nn, d)
+              | "add" -> let (nn, d) = fadd (frac b s1 t1) (frac b s2 t2) in XRat (nn, d)
+              | _ -> let (nn, d) = fadd (frac b s1 t1) (fneg (frac b s2 t2)) in XRat (nn, d)) in
+            if sub = "sqrt" && Zar.sign s1 < 0 then (if g = "panic" then pass ~nt:false () else fail "panic RootNegative")
+            else match rest with
+            | [ s; e; f; prec ] ->
+                let fid = (match model with Some t -> same (t = s ^ " " ^ e ^ " " ^ f) | None -> same false) in
+                if s = "inf" || s = "-inf" then fail "finite-result"
+                else if not (Zar.equal (usz prec) p) then fail ("precision-" ^ hx p)
+                else if not (is_normal b (z s) (z e)) then fail "result-in-normal-form"
+                else if check_contract b p m x (z s) (Zar.sub (z e) k) (flag_of f) then
+                  pass ~extra:(fid ^ " cls=float-extreme-exponent-" ^ sub ^ (if Zar.gt (Zar.abs (Zar.sub e1 e2)) (Zar.pow (zi 2) 63) then "-far" else "")) ()
+                else fail "rounding-contract"
+            | _ -> fail (match model with Some t -> "ok xr=0 " ^ t | None -> "ok xr=0 sig exp flag prec")
+          end
+      | _ -> fail ("ok xr=" ^ b2s cls ^ " ..."))
   | "fexp" | "fln" | "fpowi" ->
       (* judged against the specification of C11 in every build (round 2: only diffed between the builds) *)
       judge_elem op (n 0) (mode_of (arg 1)) (n 2) (a 3) (a 4) (if op = "fpowi" then a 5 else Zar.zero) got
@@ -354,8 +439,15 @@ let judge0 op args got =
          the specification's bits and flag. *)
       let b = n 0 and m = mode_of (arg 1) in
       let (s, e) = fnormalize b (a 3) (a 4) in
+      (* base 2 with an exponent next to the ends of isize: far beyond every threshold of both formats (2^+-5000 with at most
+         1000 bits of significand), the answers are those of the capped exponent; no power of that size is formed here *)
+      let e = if Zar.equal b (zi 2) && Zar.numbits s < 1000 && Zar.gt (Zar.abs e) (zi 5000) then (if Zar.sign e > 0 then zi 5000 else zi (-5000)) else e in
       let pow2 = Zar.equal b (zi 2) || Zar.equal b (zi 8) || Zar.equal b (zi 16) in
-      let w64 = (not pow2) && wide_class (zi 53) MHalfEven b s e and w32 = (not pow2) && wide_class (zi 24) m b s e in
+      (* finding fbig_to_float_wide_significand is FIXED (344196e: the division route rounds once to the precision,
+         Conv/ConvModel.v div_round_once; Conv/ConvDivRoute.v div_round_once_fits): no conversion is wide any more, in any
+         build; Serde/FloatToIeeeAsis.wide_class is the class of the code before the repair and is not consulted *)
+      ignore pow2;
+      let w64 = false and w32 = false in
       let (nn, dd) = frac b s e in
       let part (f : fmt) (pp : enc_params) mm =
         let (bits, c) = ieee_round f mm nn dd in
@@ -382,8 +474,8 @@ let judge0 op args got =
           let large = (not pow2) && Zar.gt (Zar.abs e) (zi 38) in
           (* one part: `Pass | `Known tag | `Skip | `Fail *)
           let judge_part wide_flag gotp wantp asisp sub =
-            if gotp = wantp then `Pass
-            else if wide_flag then `Known "fbig_to_float_wide_significand"
+            if wide_flag then `Fail       (* a wide hand-over would trip the debug assertion again *)
+            else if gotp = wantp then `Pass
             else if sub && gotp = asisp then `Known "fbig_to_float_subnormal"
             else if large then `Skip
             else `Fail in
@@ -425,19 +517,20 @@ let judge0 op args got =
       let fid = same (body 8 64 = pc && body 4 32 = pc && jfid 64 && jfid 32 && json_int_de true text = Ok v && text = dec_text v) in
       expect ~extra:(fid ^ " cls=ser-int") (Printf.sprintf "ok %s %s %s %s 1" (tok_of_bytes pc) (hx v) (tok_of_bytes js) (hx v)) got
   | "ser_fbig" | "ser_repr" -> (
-      (* binary form: exact expectation; text form: Serde/JsonModel.v (Display, then "inf" shortcut + from_str_native).
-         OPEN finding fbig_json_inf_collision: a finite number whose text is "inf" / "-inf" (base >= 24) comes back
-         as an infinity - verdict known only if the implementation returned exactly what the as-is model predicts *)
+      (* binary form: exact expectation; text form: Serde/JsonTokenModel.v json_float_ser (Display, and a finite number
+         that is displayed like an infinity token gets the scale "@0": repair of finding fbig_json_inf_collision), read
+         back through the token model (lexer of the JSON string, infinity tokens, from_str_native): the value must come
+         back in EVERY base (Serde/JsonTokenProofs.v json_float_ser_roundtrip) *)
       let fb = op = "ser_fbig" in
       let b = n 0 in
       let p = if fb then n 2 else Zar.zero in
       let (s, e) = if fb then repr_arg b (arg 3) (arg 4) else repr_arg b (arg 1) (arg 2) in
       let pc = if fb then w_fbig_enc s e p else w_repr_enc s e in
       let shown = show_repr (s, e) in
-      let text = json_float_text b s e in
+      let text = json_float_ser b s e in
       let js = tok_of_bytes (json_of text) in
-      let asis_back = (match json_float_de b text with Ok (s', e') -> Some (show_repr (s', e')) | _ -> None) in
-      let collision = json_inf_collision b s e in
+      let asis_back = (match json_tok_float b (json_of text) with Ok (s', e') -> Some (show_repr (s', e')) | _ -> None) in
+      let escaped = text <> json_float_text b s e in
       let want = Printf.sprintf "ok %s %s%s 1 %s %s <prec> 1" (tok_of_bytes pc) shown (if fb then " " ^ hx p else "") js shown in
       let split = (match got, fb with
         | [ "ok"; pc'; s1; e1; p1; l1; j; s2; e2; p2; l2 ], true -> Some (pc', s1 ^ " " ^ e1, p1 = hx p, l1, j, s2 ^ " " ^ e2, p2, l2)
@@ -450,8 +543,8 @@ let judge0 op args got =
           let fid = same (j = js && Some v2 = asis_back) in
           if not bin_ok || l2 <> "1" || j <> js then fail want
           else if v2 = shown then
-            pass ~extra:(fid ^ " cls=ser-float" ^ (if fb then " path=" ^ (if p2 = hx p then "json-precision-kept" else "json-precision-changed") else "")) ()
-          else if collision && Some v2 = asis_back then { (known "fbig_json_inf_collision" want) with extra = fid ^ " cls=json-inf-collision" }
+            pass ~extra:(fid ^ " cls=ser-float" ^ (if escaped then "-escaped" else "")
+                         ^ (if fb then " path=" ^ (if p2 = hx p then "json-precision-kept" else "json-precision-changed") else "")) ()
           else fail want)
   | "ser_rbig" | "ser_relaxed" ->
       let (cn, cd) = if op = "ser_rbig" then rat_reduce (a 0) (a 1) else rat_reduce2 (a 0) (a 1) in
@@ -499,64 +592,42 @@ let judge0 op args got =
       | Some (((s, e), p), rest) ->
           expect ~extra:"cls=de-ok" (Printf.sprintf "ok %s %s %s 1 %s 1" (consumed input rest) (show_repr (s, e)) (hx p) (tok_of_bytes (w_fbig_enc s e p))) got)
   (* ---------------------------------------------------------------- arbitrary token streams into the text decoders *)
+  (* round 4: Serde/JsonTokenModel.v decides EVERY token stream (lexer of serde_json for the one token kind that reaches
+     visit_str, error for every other kind - numbers, null, booleans, arrays, maps never reach a Visitor of the library) *)
   | "dej_ubig" | "dej_ibig" -> (
       let input = bytes_of_tok (arg 0) in
       let signed_ = op = "dej_ibig" in
-      let generic () = (match got with
-        | [ "ok"; v; lay; again; sm ] ->
-            let v' = z v in
-            if lay = "1" && sm = "1" && (signed_ || Zar.sign v' >= 0) && again = tok_of_bytes (json_of (dec_text v')) then pass ~extra:"cls=dej-other-ok" ()
-            else fail "canonical-value"
-        | "err" :: _ -> pass ~nt:false ~extra:"cls=dej-other-err" ()
-        | _ -> fail "err-or-canonical-value") in
-      match plain_json_string input with
-      | Some body -> (
-          let fid = if !cur_wb > 0 then same (json_int_de_asis (wz ()) signed_ body = json_int_de signed_ body) ^ " " else "" in
-          match json_int_de signed_ body with
-          | Ok v -> expect ~extra:(fid ^ "cls=dej-literal") (Printf.sprintf "ok %s 1 %s 1" (hx v) (tok_of_bytes (json_of (dec_text v)))) got
-          | Err _ -> expect ~extra:(fid ^ "cls=dej-bad-literal") "err decode" got
-          | _ -> fail "spec-undefined")
-      | None -> generic ())
-  | ("dej_rbig" | "dej_relaxed") when plain_json_string (bytes_of_tok (arg 0)) <> None -> (
-      (* a plain JSON string: Repr::from_str_with_radix_prefix + zero guard + reduce (Serde/JsonModel.v) *)
-      let body = (match plain_json_string (bytes_of_tok (arg 0)) with Some b -> b | None -> []) in
-      match json_rat_de (op = "dej_relaxed") body with
-      | Ok (nn, dd) ->
-          let again = (match json_rat_text nn dd with Ok t -> tok_of_bytes (json_of t) | _ -> "?") in
-          expect ~extra:"asis=same cls=dej-literal" (Printf.sprintf "ok %s %s 1 %s 1" (hx nn) (hx dd) again) got
-      | Err _ -> expect ~extra:"asis=same cls=dej-bad-literal" "err decode" got
+      let plain = plain_json_string input <> None in
+      let kind = (match json_str_token input with Ok _ -> if plain then "plain" else "escaped-or-blank" | _ -> "rejected-token") in
+      let fid = (match json_str_token input with
+        | Ok body when !cur_wb > 0 -> same (json_int_de_asis (wz ()) signed_ body = json_int_de signed_ body) ^ " "
+        | _ -> "asis=same ") in
+      match json_tok_int signed_ input with
+      | Ok v -> expect ~extra:(fid ^ "cls=dej-literal path=json-" ^ kind) (Printf.sprintf "ok %s 1 %s 1" (hx v) (tok_of_bytes (json_of (dec_text v)))) got
+      | Err _ -> expect ~extra:(fid ^ "cls=dej-bad-literal path=json-" ^ kind) "err decode" got
       | _ -> fail "spec-undefined")
   | "dej_rbig" | "dej_relaxed" -> (
-      match got with
-      | [ "ok"; nn; dd; lay; again; sm ] ->
-          let nn = z nn and dd = z dd in
-          let canon = if op = "dej_rbig" then rat_canonb nn dd else relaxed_canonb nn dd || (Zar.sign nn = 0 && Zar.equal dd Zar.one) in
-          if lay = "1" && sm = "1" && canon && again = tok_of_bytes (json_of (rat_text nn dd)) then pass ~extra:"cls=dej-ok" () else fail "canonical-rational"
-      | "err" :: _ -> pass ~nt:false ~extra:"cls=dej-err" ()
-      | _ -> fail "err-or-canonical-value")
-  | "dej_fbig" when plain_json_string (bytes_of_tok (arg 2)) <> None -> (
-      (* a plain JSON string: "inf" / "-inf" shortcut, then FBig::from_str_native; the value must be that of the model *)
-      let b = n 0 in
-      let body = (match plain_json_string (bytes_of_tok (arg 2)) with Some t -> t | None -> []) in
-      match json_float_de b body, got with
-      | Ok (s, e), [ "ok"; s'; e'; p; lay; again; sm ] ->
-          let value_ok = s' ^ " " ^ e' = show_repr (s, e) && lay = "1" && (Zar.sign s = 0 || fbig_canonb b s e (usz p)) in
-          let text_ok = again = tok_of_bytes (json_of (json_float_text b s e)) in
-          if value_ok && text_ok && sm = "1" then pass ~extra:"asis=same cls=dej-literal" ()
-          else if value_ok && text_ok && sm = "0" && json_inf_collision b s e then
-            (* open finding: the decoded finite number is written back as "inf" and that text decodes to an infinity *)
-            { (known "fbig_json_inf_collision" "re-encoding decodes to the same number") with extra = "asis=same cls=json-inf-collision" }
-          else fail ("ok " ^ show_repr (s, e) ^ " <prec> 1 <text> 1")
-      | Ok (s, e), _ -> fail ("ok " ^ show_repr (s, e) ^ " <prec> 1 <text> 1")
-      | Err _, _ -> expect ~extra:"asis=same cls=dej-bad-literal" "err decode" got
-      | _, _ -> fail "spec-undefined")
+      let input = bytes_of_tok (arg 0) in
+      let kind = (match json_str_token input with Ok _ -> if plain_json_string input <> None then "plain" else "escaped-or-blank" | _ -> "rejected-token") in
+      match json_tok_rat (op = "dej_relaxed") input with
+      | Ok (nn, dd) ->
+          let again = (match json_rat_text nn dd with Ok t -> tok_of_bytes (json_of t) | _ -> "?") in
+          expect ~extra:("asis=same cls=dej-literal path=json-" ^ kind) (Printf.sprintf "ok %s %s 1 %s 1" (hx nn) (hx dd) again) got
+      | Err _ -> expect ~extra:("asis=same cls=dej-bad-literal path=json-" ^ kind) "err decode" got
+      | _ -> fail "spec-undefined")
   | "dej_fbig" -> (
       let b = n 0 in
-      match got with
-      | [ "ok"; s; e; p; lay; _; sm ] ->
-          if lay = "1" && sm = "1" && (s = "inf" || s = "-inf" || fbig_canonb b (z s) (z e) (usz p)) then pass ~extra:"cls=dej-ok" () else fail "canonical-float"
-      | "err" :: _ -> pass ~nt:false ~extra:"cls=dej-err" ()
-      | _ -> fail "err-or-canonical-value")
+      let input = bytes_of_tok (arg 2) in
+      let kind = (match json_str_token input with Ok _ -> if plain_json_string input <> None then "plain" else "escaped-or-blank" | _ -> "rejected-token") in
+      match json_tok_float b input, got with
+      | Ok (s, e), [ "ok"; s'; e'; p; lay; again; sm ] ->
+          let value_ok = s' ^ " " ^ e' = show_repr (s, e) && lay = "1" && (Zar.sign s = 0 || fbig_canonb b s e (usz p)) in
+          let text_ok = again = tok_of_bytes (json_of (json_float_ser b s e)) in
+          if value_ok && text_ok && sm = "1" then pass ~extra:("asis=same cls=dej-literal path=json-" ^ kind) ()
+          else fail ("ok " ^ show_repr (s, e) ^ " <prec> 1 <text> 1")
+      | Ok (s, e), _ -> fail ("ok " ^ show_repr (s, e) ^ " <prec> 1 <text> 1")
+      | Err _, _ -> expect ~extra:("asis=same cls=dej-bad-literal path=json-" ^ kind) "err decode" got
+      | _, _ -> fail "spec-undefined")
   | "kmul" -> (
       (* one multiplication kernel on the word slices of the answering build (verif_hooks::mul_kernel); the word-level
          as-is model of C01 (Int/RingMulW.v: schoolbook chunks, Karatsuba, Toom-3 slice by slice) is run on the SAME
@@ -607,6 +678,7 @@ let judge0 op args got =
    (Serde/WordRuns.v: each run = specification for EVERY word size; here: the answer of the model at w = 64 / 32 against
    the answer of the build with that word size).  Some true = same, Some false = diff, None = no word-level run *)
 let rec int_of_nat = function O -> 0 | S k -> 1 + int_of_nat k
+let fuel_grl = nat_of_int 200000
 let wl_fidelity op args (got : string list) : (bool * string) option =
   let w = !cur_wb in
   if w <> 64 && w <> 32 then None else
@@ -657,8 +729,25 @@ let wl_fidelity op args (got : string list) : (bool * string) option =
   | "sqrt" when not (big (a 0)) -> Some (okz (wr_sqrt wz (a 0)) = gots, Printf.sprintf "w%d-%s" w (if words (a 0) <= 2 then "dword" else "large"))
   | "modmul" when Zar.sign (a 0) > 0 && not (big (a 0)) ->
       Some (okz (ws_modmul wz (a 0) (a 1) (a 2)) = gots, Printf.sprintf "w%d-%s" w (if words (a 0) <= 1 then "single" else if words (a 0) = 2 then "double" else "large"))
+  | "modsqr" when Zar.sign (a 0) > 0 && not (big (a 0)) ->
+      Some (okz (ws_modmul wz (a 0) (a 1) (a 1)) = gots, Printf.sprintf "w%d-%s" w (if words (a 0) <= 1 then "single" else if words (a 0) = 2 then "double" else "large"))
   | "modpow" when Zar.sign (a 0) > 0 && words (a 0) <= 40 ->
       Some (okz (ws_modpow wz (a 0) (a 1) (a 2)) = gots, Printf.sprintf "w%d-%s" w (if words (a 0) <= 1 then "single" else if words (a 0) = 2 then "double" else "large"))
+  (* round 4: gcd / gcd_ext / nth_root / ilog with the dispatch of THIS word size (Serde/WordRunsModel2.v) *)
+  | "gcd" when not (big (a 0) || big (a 1)) ->
+      let t = (match wr_gcd fuel_grl wz (a 0) (a 1) with Ok g -> "ok " ^ hx g | Panic _ -> "panic" | _ -> "?") in
+      let g0 = (match got with "panic" :: _ -> "panic" | _ -> gots) in
+      Some (t = g0, Printf.sprintf "w%d-gcd%s" w (Zar.to_string (wr_gcd_path wz (a 0) (a 1))))
+  | "gcdext" when not (big (a 0) || big (a 1)) ->
+      let t = (match wr_gcdext fuel_grl wz (a 0) (a 1) with Ok ((g, s), t) -> "ok " ^ hx g ^ " " ^ hx s ^ " " ^ hx t | Panic _ -> "panic" | _ -> "?") in
+      let g0 = (match got with "panic" :: _ -> "panic" | _ -> gots) in
+      Some (t = g0, Printf.sprintf "w%d-gcdext%s" w (Zar.to_string (wr_gcd_path wz (a 0) (a 1))))
+  | "nthroot" when not (big (a 0)) ->
+      let t = (match wr_nthroot fuel_grl wz (a 0) (n 1) with Ok r -> "ok " ^ hx r | Panic RootZeroth -> "panic RootZeroth" | _ -> "?") in
+      Some (t = gots, Printf.sprintf "w%d-root%s" w (if Zar.equal (n 1) (zi 2) then (if words (a 0) <= 2 then "2-dword" else "2-large") else "n"))
+  | "ilog" when not (big (a 0)) ->
+      let t = (match wr_ilog fuel_grl wz (a 0) (a 1) with Ok e -> "ok " ^ hx e | Panic LogOperand -> "panic LogOperand" | _ -> "?") in
+      Some (t = gots, Printf.sprintf "w%d-ilog%s" w (Zar.to_string (wr_ilog_path wz (a 0) (a 1))))
   | "tof64" ->
       let v = a 0 in
       let (b64, c64) = wr_tof64 wz v and (b32, c32) = wr_tof32 wz v in
